@@ -2,6 +2,7 @@ package drv
 
 import (
 	"fmt"
+	"time"
 
 	"github.com/olive-io/bpmn/schema"
 	bpmn "github.com/olive-io/bpmn/v2"
@@ -161,9 +162,14 @@ func (el *EventLock) Body() func() {
 				sent = append(sent, d)
 				history = append(history, "!"+ev.Ref)
 				go func() {
-					if ev.Kind == "message" {
+					switch ev.Kind {
+					case "message":
 						r.Message(ev.Ref)
-					} else {
+					case "timer":
+						// a timer definition of the alphabet "is delivered" by moving the mock
+						// clock one hour on (the definitions used are PT1H durations)
+						r.Clock.Add(time.Hour)
+					default:
 						r.Signal(ev.Ref)
 					}
 					d.returned = true
